@@ -238,9 +238,10 @@ theorem selection_keepFn {tbl : Opcode → Eff} (htbl : SoundTable tbl) (f : Fun
     ∃ S : Val → Prop, Selection f (keepFn tbl f) S := by
   unfold keepFn
   cases hL : liveSet tbl f with
-  | none => exact ⟨fun _ => True, fun _ _ _ _ _ => trivial, fun _ _ h => by cases h⟩
+  | none => exact ⟨fun _ => True, fun _ _ _ _ _ => trivial, fun _ _ h => by simp [keepOf] at h⟩
   | some L =>
     refine ⟨(· ∈ L), fun i hi hk => keeps_operands_live hL hi hk, fun i _ hk => ?_⟩
+    simp only [keepOf] at hk
     simp only [keeps, Bool.or_eq_false_iff, decide_eq_false_iff_not, Decidable.not_not,
       List.any_eq_false, decide_eq_true_eq] at hk
     exact ⟨htbl _ hk.1, hk.2⟩
@@ -250,7 +251,9 @@ theorem dceWith_sound (w : World) (tbl : Opcode → Eff) (f : Func) (hnf : Alias
     (htbl : SoundTable tbl) (args : List Nat) (fuel : Nat) :
     run w (dceWith tbl f) args fuel = run w f args fuel := by
   obtain ⟨S, hsel⟩ := selection_keepFn htbl f
-  unfold dceWith
+  show run w { f with blocks := f.blocks.map (fun B =>
+      if B.invalid then B
+      else { B with instrs := (B.instrs.filter (keepFn tbl f)).map (·.mapOperands (res f.alias)) }) } args fuel = _
   simp only [run]
   rw [entry_map]
   · exact (runFrom_dce w hnf hsel fuel _ args St.init St.init ⟨fun _ _ => rfl, rfl, rfl⟩).symm
